@@ -4,4 +4,4 @@ From Trie Require Import Nibbles Node Encode Model Spec.
 From C01 Require Import Model.
 Extraction "model.ml" drv_b2n drv_n2b drv_z_of_n drv_n_of_z drv_nat_of_n drv_n_of_nat
   run run_pinned map_of step hits_delete_exhausted layout_ops
-  trie_root build_trie kv_of_bmap spec_root_bytes blake2b_256 V0 V1.
+  enc must_be_hashed trie_root build_trie kv_of_bmap spec_root_bytes blake2b_256 V0 V1.
